@@ -104,7 +104,7 @@ func (u *UpdateRouting) Command(ctx context.Context) *redis.StringCmd {
 }
 
 func ParseUpdateRoutingCommand(cmd redcon.Command) (*UpdateRouting, error) {
-	if len(cmd.Args) < 2 {
+	if len(cmd.Args) < 3 {
 		return nil, errWrongNumber(cmd.Args)
 	}
 	coordinatorID, err := strconv.ParseUint(util.BytesToString(cmd.Args[2]), 10, 64)
